@@ -38,7 +38,10 @@ TEXTS = ["v", "1 < 2", "a & b", "", "x\"y'", "  pad  ", "é"]
 _counter = itertools.count()
 
 
-def rand_model(rng, depth, bases=True, prefix="f", pool=None):
+SEQ_NUMBERS = [0, 0, 0, 1, 2, 7, 10]
+
+
+def rand_model(rng, depth, bases=True, prefix="f", pool=None, sequences=True):
     """a model description (JSON-able); `base`: the description of a base class (its fields are
     inherited), `own_meta`: the class has a `Meta` of its own (a class without a base always has)"""
     pool = [] if pool is None else pool     # finished nested models of this root: a class may be used twice
@@ -52,7 +55,7 @@ def rand_model(rng, depth, bases=True, prefix="f", pool=None):
     if bases and rng.random() < 0.35:
         # the whole family: base with / without a namespace of its own, itself derived or not,
         # subclass with a Meta of its own (with / without namespace) or without one
-        b = rand_model(rng, 0, bases=rng.random() < 0.3, prefix=prefix + "b")
+        b = rand_model(rng, 0, bases=rng.random() < 0.3, prefix=prefix + "b", sequences=sequences)
         b["fields"] = [f for f in b["fields"] if f["kind"] != "text"]
         m["base"] = b
         m["own_meta"] = rng.random() < 0.45
@@ -90,13 +93,29 @@ def rand_model(rng, depth, bases=True, prefix="f", pool=None):
                 # the same class again, possibly under a class of another namespace (one metadata cache)
                 f["type"] = copy.deepcopy(rng.choice(pool))
             else:
-                f["type"] = rand_model(rng, depth - 1, bases=bases, prefix=prefix, pool=pool)
+                f["type"] = rand_model(rng, depth - 1, bases=bases, prefix=prefix, pool=pool, sequences=sequences)
                 pool.append(copy.deepcopy(f["type"]))
             f["nillable"] = f["nillable"] and not f["list"]
         elif f["list"] and rng.random() < 0.4:
             f["wrapper"] = rng.choice(["wrap", "items"])
             f["local"] = f["local"] or "item"
         m["fields"].append(f)
+    els = [f for f in m["fields"] if f["kind"] == "element"]
+    inherited_seq = any(f.get("sequence") is not None for f, _ in (all_fields(m["base"]) if m.get("base") else []))
+    if sequences and len(els) >= 2 and not inherited_seq and rng.random() < 0.4:   # (one class of a chain has the groups)
+        # sequence groups (metadata `sequence`: any int, 0 included): one or two numbers on some of the element
+        # fields, members mostly lists of different lengths, sometimes a field without number in between
+        nums = rng.sample(sorted(set(SEQ_NUMBERS)), rng.choice([1, 1, 2]))
+        if rng.random() < 0.5:
+            nums[0] = 0
+        members = rng.sample(range(len(els)), rng.randint(2, len(els)))
+        for k in members:
+            els[k]["sequence"] = rng.choice(nums)
+            if rng.random() < 0.7 and not isinstance(els[k]["type"], dict):
+                els[k]["list"], els[k]["nillable"] = True, False
+        lo, hi = min(members), max(members)
+        for f in els[lo:hi + 1]:
+            f["wrapper"] = None          # (a wrapped list inside a group: C01's excluded region)
     if n_el == 0 and not m.get("base") and rng.random() < 0.6:
         m["fields"].append({"name": fname(), "kind": "text"})
     return m
@@ -166,6 +185,8 @@ def build_class(m, reg=None):
                 md["nillable"] = True
             if f["wrapper"]:
                 md["wrapper"] = f["wrapper"]
+            if f.get("sequence") is not None:
+                md["sequence"] = f["sequence"]
             if f["list"]:
                 tp = List[base]
                 default = field(default_factory=list, metadata=md)
@@ -212,6 +233,7 @@ def expected(m, inst, name, parent_ns):
     """element `name` = (ns, local) holding instance `inst` of model `m`"""
     cns = class_ns(m, parent_ns)
     attrs, kids = [], []
+    plan = []      # element fields in definition order: (field, [nodes of value 0, nodes of value 1, …], whole)
     for f, decl in all_fields(m):
         v = inst[f["name"]]
         # an inherited field defaults to the namespace the Meta of its declaring class sets, if it sets one
@@ -222,29 +244,44 @@ def expected(m, inst, name, parent_ns):
                 attrs.append([f["namespace"] or None, local, v])
         elif f["kind"] == "text":
             if v:
-                kids.append(["t", v])
+                plan.append((f, [[["t", v]]], None))
         else:
             ens = dns if f["namespace"] is None else (f["namespace"] or None)
             values = v if f["list"] else [v]
-            items = []
+            units = []
             for x in values:
                 if x is None:
-                    if f["nillable"] and not f["list"]:
-                        items.append(["e", ens, local, [[S.XSI, "nil", "true"]], []])
-                    continue
-                if isinstance(f["type"], dict):
+                    units.append([["e", ens, local, [[S.XSI, "nil", "true"]], []]] if f["nillable"] and not f["list"] else [])
+                elif isinstance(f["type"], dict):
                     # a class without Meta.namespace inherits the namespace of the enclosing instance's class
                     # (repair c01g-01: the serializer hands meta.namespace down like the parser; before: the
                     # namespace of the enclosing element name, name[0]); an object under a nillable field is
                     # not xsi:nil because of the field (repair c01g-03)
-                    items.append(expected(f["type"], x, (ens, local), cns))
+                    units.append([expected(f["type"], x, (ens, local), cns)])
                 else:
-                    items.append(["e", ens, local, [], [["t", x]] if x else []])
+                    units.append([["e", ens, local, [], [["t", x]] if x else []]])
+            whole = None
             if f["wrapper"]:
-                if f["list"]:
-                    kids.append(["e", ens, f["wrapper"], [], items])
-            else:
-                kids.extend(items)
+                whole = [["e", ens, f["wrapper"], [], [n for u in units for n in u]]] if f["list"] else []
+            plan.append((f, units, whole))
+    # "fields with the same sequence number are rendered sequentially": from the first field of a number to the
+    # LAST field with that number (whatever lies in between goes along) the values are written round by round —
+    # round j takes the j-th item of every list, a single value belongs to round 0.  The number is any int, 0 included.
+    i = 0
+    while i < len(plan):
+        f, units, whole = plan[i]
+        sq = f.get("sequence")
+        if sq is None:
+            kids.extend(whole if whole is not None else [n for u in units for n in u])
+            i += 1
+            continue
+        end = max(k for k in range(i, len(plan)) if plan[k][0].get("sequence") == sq)
+        group = plan[i:end + 1]
+        for j in range(max([len(u) for _, u, _ in group] + [1])):
+            for g, gu, _ in group:
+                if j < len(gu):
+                    kids.extend(gu[j])
+        i = end + 1
     return ["e", name[0], name[1], attrs, kids]
 
 
@@ -347,7 +384,23 @@ def hand_models():
         yield outer, {"a": {"v": "1"}, "p": {"c": {"v": "2"}}, "b": {"v": "3"}}
 
 
+def hand_sequences():
+    """the family around `sequence`: the number (0 included), two groups, lists of different lengths, a single
+    value in a group, a field without number inside the span of a group"""
+    k = itertools.count()
+    for n in (0, 1, 2, 10):
+        for other in (None, 0, 3):
+            i = next(k)
+            fs = [dict(_el("key", lst=True), sequence=n), dict(_el("mid"), sequence=other), dict(_el("val", lst=True), sequence=n), _el("tail")]
+            yield _cls("HSeq%d" % i, fs, ns="urn:demo"), {"key": ["1", "2", "3"], "mid": "m", "val": ["a", "b"], "tail": "t"}
+            fs2 = [dict(_el("a", lst=True), sequence=n), dict(_el("b", lst=True), sequence=n), dict(_el("c", lst=True), sequence=other), dict(_el("d", lst=True), sequence=other)]
+            yield _cls("HSeq2_%d" % i, fs2, ns=None, has_ns=False), {"a": ["1", "2"], "b": ["x", "y"], "c": ["p"], "d": ["q", "r"]}
+
+
 def gen_object(rng, tier):
+    for m, inst in hand_sequences():
+        for nm in ([], [[None, "urn:demo"]], [["p", "urn:demo"]]):
+            yield {"model": m, "inst": inst, "ns_map": nm}
     for m, inst in hand_models():
         for nm in ([], [[None, "urn:h"]], [["h", "urn:h"], ["b", "urn:base"]]):
             yield {"model": m, "inst": inst, "ns_map": nm}
@@ -368,7 +421,7 @@ def gen_ser_object(rng, tier):
         yield {"model": m, "inst": inst, "ns_map": []}
     n = 600 if tier == "quick" else 20000
     for _ in range(n):
-        m = rand_model(rng, rng.choice([0, 1, 1, 2, 2]))
+        m = rand_model(rng, rng.choice([0, 1, 1, 2, 2]), sequences=False)    # Spec/ObjectTree.lean has no `sequence`
         yield {"model": m, "inst": rand_instance(rng, m), "ns_map": [list(x) for x in rng.choice(SAFE_OBJ_MAPS)]}
 
 
